@@ -122,6 +122,49 @@ pub fn attack_programs() -> Vec<(&'static str, &'static str)> {
     ]
 }
 
+/// (module, a function of it with one argument that works on `1`, a second function)
+const MEMBERS: [(&str, &str, &str); 7] = [
+    ("math", "floor", "ceil"),
+    ("map", "keys", "values"),
+    ("string", "quote", "length"),
+    ("list", "length", "separator"),
+    ("color", "red", "green"),
+    ("selector", "parse", "simple-selectors"),
+    ("meta", "type-of", "inspect"),
+];
+
+/// Combinatorial attacks: every construct that could write into a built-in
+/// module's (process-wide) scope, for every built-in module.
+pub fn generated_attack(rng: &mut Rng) -> (String, String) {
+    let (m, f, g) = *rng.pick(&MEMBERS);
+    let arg = match m {
+        "map" => "(a: 1)",
+        "color" => "#123456",
+        "selector" => "\".a\"",
+        "string" => "\"abc\"",
+        "list" => "(1 2 3)",
+        _ => "1.5",
+    };
+    let t = rng.below(14);
+    let src = match t {
+        0 => format!("@use \"sass:{m}\" as *;\n@function {f}($a...) {{ @return hijacked-{f}; }}\na {{ b: {f}({arg}); c: {g}({arg}); }}\n"),
+        1 => format!("@use \"sass:{m}\";\n@function {f}($a...) {{ @return hijacked; }}\na {{ b: {m}.{f}({arg}); c: {f}({arg}); }}\n"),
+        2 => format!("@use \"sass:{m}\" as ns;\nns.$new-var: 1;\na {{ b: ns.$new-var; }}\n"),
+        3 => format!("@use \"sass:{m}\" with ($x: 1);\na {{ b: c; }}\n"),
+        4 => format!("@forward \"sass:{m}\" with ($x: 1);\na {{ b: c; }}\n"),
+        5 => format!("@forward \"sass:{m}\" as p-*;\n@use \"sass:{m}\";\na {{ b: {m}.{f}({arg}); }}\n"),
+        6 => format!("@forward \"sass:{m}\" hide {f};\n@use \"sass:{m}\";\na {{ b: {m}.{f}({arg}); c: {m}.{g}({arg}); }}\n"),
+        7 => format!("@forward \"sass:{m}\" show {g};\n@use \"sass:{m}\" as q;\na {{ b: q.{f}({arg}); }}\n"),
+        8 => format!("@use \"sass:meta\";\n@include meta.load-css(\"sass:{m}\", $with: (x: 1));\na {{ b: c; }}\n"),
+        9 => format!("@use \"sass:{m}\" as *;\n$hijack: 1 !global;\n@mixin {f}() {{ x: y; }}\na {{ @include {f}; b: {g}({arg}); }}\n"),
+        10 => format!("@use \"sass:{m}\" as a;\n@use \"sass:{m}\" as b;\nx {{ y: a.{f}({arg}); z: b.{g}({arg}); }}\n"),
+        11 => format!("@use \"sass:meta\";\n@use \"sass:{m}\";\n$fn: meta.get-function(\"{f}\", $module: \"{m}\");\nx {{ y: meta.call($fn, {arg}); z: meta.inspect(meta.module-variables(\"{m}\")); }}\n"),
+        12 => format!("@use \"sass:{m}\" as *;\n@use \"sass:math\" as mm;\nmm.$pi: 3;\nx {{ y: {f}({arg}); }}\n"),
+        _ => format!("@use \"sass:{m}\";\n@mixin m {{ @content; }}\n@include m {{ x {{ y: {m}.{f}({arg}); }} }}\n{m}.$nope: 1;\n"),
+    };
+    (format!("gen-attack-{t}-{m}"), src)
+}
+
 /// Multi-file items: modules that shadow or forward built-ins.
 pub fn module_items() -> Vec<Item> {
     let mut out = vec![];
@@ -212,10 +255,14 @@ pub fn corpus() -> &'static [Item] {
 pub fn draw_item(rng: &mut Rng) -> Item {
     let mut it = match rng.below(10) {
         0 | 1 => Item::simple("probe", &probe_program(rng.below(2))),
-        2 | 3 | 4 => {
+        2 | 3 => {
             let a = attack_programs();
             let (n, s) = a[rng.usize(a.len())];
             Item::simple(n, s)
+        }
+        4 => {
+            let (n, s) = generated_attack(rng);
+            Item::simple(&n, &s)
         }
         5 => {
             let m = module_items();
